@@ -420,3 +420,105 @@ def delete_and_recreate(t1: int, n_ops: int, who: bool) -> bool:
     ok = ok and outs[0][0][-2] == [] and outs[1][0][-2] == []
   reach('recreate')
   return finish(ok, (t1, n_ops, who), obs=None if ok else [outs[0][0][-1], outs[1][0][-1]])
+
+
+# ---- short histories on both back ends (state that only builds up along a sequence, e.g. id allocation after deletes) -----
+H_MENU = ['CreateTrial', 'Suggest_w1', 'Suggest_v2', 'CompleteNewest', 'DeleteNewest', 'DeleteOldest', 'AddMeasurement1',
+          'StopNewest', 'SetInactive', 'SetActive', 'DeleteStudy', 'CreateStudy', 'UpdateMetadataStudy', 'ListTrials']
+
+
+def _h_request(sv, name):
+  st = svc.abstract(sv)
+  ids = sorted(st['trials']) if st else []
+  newest, oldest = (ids[-1] if ids else 1), (ids[0] if ids else 1)
+  if name == 'CreateTrial':
+    t = study_pb2.Trial()
+    t.parameters.add(parameter_id='x').value.number_value = 0.75
+    return 'CreateTrial', vs.CreateTrialRequest(parent=S, trial=t)
+  if name == 'Suggest_w1':
+    return 'SuggestTrials', vs.SuggestTrialsRequest(parent=S, suggestion_count=1, client_id='w')
+  if name == 'Suggest_v2':
+    return 'SuggestTrials', vs.SuggestTrialsRequest(parent=S, suggestion_count=2, client_id='v')
+  if name == 'CompleteNewest':
+    r = vs.CompleteTrialRequest(name=svc.trial_name(newest))
+    r.final_measurement.metrics.add(metric_id='m', value=7.0)
+    return 'CompleteTrial', r
+  if name == 'DeleteNewest':
+    return 'DeleteTrial', vs.DeleteTrialRequest(name=svc.trial_name(newest))
+  if name == 'DeleteOldest':
+    return 'DeleteTrial', vs.DeleteTrialRequest(name=svc.trial_name(oldest))
+  if name == 'AddMeasurement1':
+    r = vs.AddTrialMeasurementRequest(trial_name=svc.trial_name(1))
+    r.measurement.metrics.add(metric_id='m', value=9.0)
+    return 'AddTrialMeasurement', r
+  if name == 'StopNewest':
+    return 'StopTrial', vs.StopTrialRequest(name=svc.trial_name(newest))
+  if name == 'SetInactive':
+    return 'SetStudyState', vs.SetStudyStateRequest(parent=S, state=2)
+  if name == 'SetActive':
+    return 'SetStudyState', vs.SetStudyStateRequest(parent=S, state=1)
+  if name == 'DeleteStudy':
+    return 'DeleteStudy', vs.DeleteStudyRequest(name=S)
+  if name == 'CreateStudy':
+    return 'CreateStudy', vs.CreateStudyRequest(parent=svc.OWNER, study=study_pb2.Study(display_name='s', study_spec=svc.spec()))
+  if name == 'UpdateMetadataStudy':
+    r = vs.UpdateMetadataRequest(name=S)
+    d = r.delta.add()
+    d.metadatum.key, d.metadatum.value = 'k', 'v'
+    return 'UpdateMetadata', r
+  if name == 'ListTrials':
+    return 'ListTrials', vs.ListTrialsRequest(parent=S)
+  raise AssertionError(name)
+
+
+def _history(ops, args):
+  with NoTracing():
+    ram = svc.new_servicer()
+    sql = svc.new_servicer(database_url='sqlite:///:memory:')
+    for sv in (ram, sql):
+      svc.add_study(sv, state=1)
+      sv.datastore.create_trial(svc.make_trial(1, ACTIVE, client='w'))
+      sv.datastore.create_trial(svc.make_trial(2, REQUESTED))
+    ok, where = svc.abstract(ram) == svc.abstract(sql), None
+    for k, o in enumerate(ops):
+      outs = []
+      for sv in (ram, sql):
+        method, req = _h_request(sv, H_MENU[o])
+        r, e = svc.call(getattr(sv, method), req)
+        outs.append((svc.classify(e), _obs(r), svc.abstract(sv)))
+      if ok and outs[0] != outs[1]:
+        ok, where = False, [k, H_MENU[o], outs[0][:2], outs[1][:2]]
+    # a later call that makes the SQL layer roll back changes nothing
+    if ok:
+      snap = svc.abstract(sql)
+      svc.call(sql.CreateStudy, vs.CreateStudyRequest(parent='owners/q', study=study_pb2.Study(
+          display_name='later', study_spec=svc.spec())))
+      svc.call(sql.CreateStudy, vs.CreateStudyRequest(parent='owners/q', study=study_pb2.Study(
+          display_name='later', study_spec=svc.spec())))
+      if svc.abstract(sql) != snap:
+        ok, where = False, ['uncommitted work lost after a rollback']
+  reach('history')
+  return finish(ok, args, obs=[[H_MENU[o] for o in ops], where])
+
+
+def eq_history3(o1: int, o2: int, o3: int) -> bool:
+  """
+  pre: 0 <= o1 <= 13 and 0 <= o2 <= 13 and 0 <= o3 <= 13
+  post: _
+  """
+  o1, o2, o3 = conc(o1, 0, 13), conc(o2, 0, 13), conc(o3, 0, 13)
+  return _history([o1, o2, o3], (o1, o2, o3))
+
+
+def eq_history4(o1: int, o2: int, o3: int, o4: int) -> bool:
+  """
+  pre: 0 <= o1 <= 13 and 0 <= o2 <= 13 and 0 <= o3 <= 13 and 0 <= o4 <= 13
+  post: _
+  """
+  import os
+  o1 = conc(o1, 0, 13)
+  sl = os.environ.get('VERIF_SLICE')
+  if sl is not None and o1 != int(sl):
+    return True
+  o2, o3, o4 = conc(o2, 0, 13), conc(o3, 0, 13), conc(o4, 0, 13)
+  return _history([o1, o2, o3, o4], (o1, o2, o3, o4))
